@@ -1,49 +1,61 @@
 /*@unit {
  'kind': 'proof', 'mode': 'legacy',
  'functions': ['print_i'],
- 'clauses': 'd/i, u, o, x/X and the %p call of print_i: for every 64-bit value, every flag set (- + space # 0, upper case), every width >= 0 and every precision >= 0 or none: return value == ISO length, number of callback calls == return value, the k-th character handed to the callback == k-th character of the ISO text (arbitrary k); digits are built inside buff[23] only (every access checked); no signed overflow',
+ 'clauses': 'd/i, u, o, x/X and the %p call of print_i: for every 64-bit value, every flag set (- + space # 0, upper case), every width >= 0 and every precision >= 0 or none: return value == ISO length == number of callback calls; each of the five output segments (left pad, sign/0x prefix, zeros, digits, right pad) has the length ISO C 7.21.6.1 prescribes and its j-th character (arbitrary segment and j) is the ISO one; digits are built inside buff[23] only (every access checked); no signed overflow',
  'params': {'CONV': ['CONV_D', 'CONV_U', 'CONV_O', 'CONV_X', 'CONV_P']},
  'include': ['igris/util'],
  'solver': 'kissat',
  'unwind': 24,
- 'complete_unwinding': 'digit loop (do..while (u)): at most 22 iterations (64-bit value, base 8); prefix loop: at most 2; digit output loop (while (len--)): at most 22; strlen of the 0..2 character prefix literal (cbmc library model): at most 3; oracle loops: constant bound 22.  All unwound 24 times with unwinding assertions.  The three padding loops (bounded by width/precision) are closed by injected invariants.',
+ 'complete_unwinding': 'digit loop (do..while (u)): at most 22 iterations (64-bit value, base 8); prefix loop: at most 2; strlen of the 0..2 character prefix literal (cbmc library model): at most 3; oracle loops: constant bound 22.  All unwound 24 times with unwinding assertions.  The four loops bounded by width/precision/len are closed by injected invariants.',
+ 'ghost_calls': ['iso_digit_char'],
  'inject': [
+  {'file': 'igris/util/printf_impl.c', 'func': 'print_i', 'loop': 0, 'expect': 'while (u)',
+   'assigns': 'ch, str, u, __CPROVER_object_whole(buff), g_q, g_i, g_refc',
+   'invariants': ['0 <= g_i && g_i < g_nd && g_nd <= ISO_MAXDIG',
+                  '__CPROVER_same_object(str, buff) && __CPROVER_POINTER_OFFSET(str) == PRINT_I_BUFF_SZ - 1 - g_i',
+                  'u == g_q',
+                  'G_LEN_IS(u, g_nd - g_i)',
+                  '(0 <= g_w && g_w < g_i) ==> buff[PRINT_I_BUFF_SZ - 2 - g_w] == g_refc'],
+   'decreases': 'g_nd - g_i'},
+  {'file': 'igris/util/printf_impl.c', 'func': 'print_i', 'loop': 0, 'at': 'body-begin',
+   'ghost': 'g_refc = (g_i == g_w) ? iso_digit_char((unsigned)(u % base), (ops & OPS_SPEC_UPPER_CASE) != 0) : g_refc; g_q = g_q / (unsigned)base;'},
+  {'file': 'igris/util/printf_impl.c', 'func': 'print_i', 'loop': 0, 'at': 'body-end', 'ghost': 'g_i = g_i + 1;'},
+  {'file': 'igris/util/printf_impl.c', 'func': 'print_i', 'at': 'after', 'anchor': 'space_count = MAX(space_count, 0);',
+   'ghost': '__CPROVER_assert(G_LAYOUT_IS_ISO(prefix_len, zero_count, len, space_count), "print_i: the computed layout (prefix, zero, digit and space counts) is the ISO layout of this directive and value"); __CPROVER_assume(G_LAYOUT_IS_ISO(prefix_len, zero_count, len, space_count));'},
   {'file': 'igris/util/printf_impl.c', 'func': 'print_i', 'at': 'before', 'anchor': 'for (; space_count; --space_count)',
-   'ghost': 'g_c1 = g_count; g_n1 = space_count; g_g1 = g_got;'},
+   'ghost': 'g_seg = 0; g_pos = 0; g_c1 = g_count; g_n1 = space_count; g_g1 = g_got;'},
   {'file': 'igris/util/printf_impl.c', 'func': 'print_i', 'loop': 1, 'expect': 'for (; space_count; --space_count)',
-   'assigns': 'space_count, g_count, g_got',
+   'assigns': 'space_count, g_count, g_pos, g_got',
    'invariants': ['0 <= space_count && space_count <= g_n1',
-                  'g_count == g_c1 + (g_n1 - space_count)',
-                  'g_k < g_c1 ==> g_got == g_g1',
-                  '(g_c1 <= g_k && g_k < g_count) ==> g_got == 32'],
+                  'g_pos == g_n1 - space_count && g_count == g_c1 + g_pos',
+                  '(g_kseg == 0 && g_kj < g_pos) ? g_got == 32 : g_got == g_g1'],
    'decreases': 'space_count'},
+  {'file': 'igris/util/printf_impl.c', 'func': 'print_i', 'at': 'before', 'anchor': 'while (prefix_len--)',
+   'ghost': 'g_l0 = (g_seg == 0) ? g_pos : 0; g_seg = 1; g_pos = 0;'},
   {'file': 'igris/util/printf_impl.c', 'func': 'print_i', 'at': 'before', 'anchor': 'while (zero_count--)',
-   'ghost': 'g_c3 = g_count; g_n3 = zero_count; g_g3 = g_got;'},
+   'ghost': 'g_l1 = g_pos; g_seg = 2; g_pos = 0; g_c3 = g_count; g_n3 = zero_count; g_g3 = g_got;'},
   {'file': 'igris/util/printf_impl.c', 'func': 'print_i', 'loop': 3, 'expect': 'while (zero_count--)',
-   'assigns': 'zero_count, g_count, g_got',
+   'assigns': 'zero_count, g_count, g_pos, g_got',
    'invariants': ['0 <= zero_count && zero_count <= g_n3',
-                  'g_count == g_c3 + (g_n3 - zero_count)',
-                  'g_k < g_c3 ==> g_got == g_g3',
-                  '(g_c3 <= g_k && g_k < g_count) ==> g_got == 48'],
+                  'g_pos == g_n3 - zero_count && g_count == g_c3 + g_pos',
+                  '(g_kseg == 2 && g_kj < g_pos) ? g_got == 48 : g_got == g_g3'],
    'decreases': 'zero_count'},
   {'file': 'igris/util/printf_impl.c', 'func': 'print_i', 'at': 'before', 'anchor': 'while (len--)',
-   'ghost': 'g_c4 = g_count; g_n4 = len; g_g4 = g_got; g_s4 = str;'},
+   'ghost': 'g_l2 = g_pos; g_seg = 3; g_pos = 0; g_c4 = g_count; g_n4 = len; g_g4 = g_got; g_s4 = str;'},
   {'file': 'igris/util/printf_impl.c', 'func': 'print_i', 'loop': 4, 'expect': 'while (len--)',
-   'assigns': 'len, str, g_count, g_got',
+   'assigns': 'len, str, g_count, g_pos, g_got',
    'invariants': ['0 <= len && len <= g_n4',
-                  '__CPROVER_same_object(str, g_s4) && __CPROVER_POINTER_OFFSET(str) == __CPROVER_POINTER_OFFSET(g_s4) + (g_n4 - len)',
-                  'g_count == g_c4 + (g_n4 - len)',
-                  'g_k < g_c4 ==> g_got == g_g4',
-                  '(g_c4 <= g_k && g_k < g_count) ==> g_got == (int)g_s4[g_k - g_c4]'],
+                  '__CPROVER_same_object(str, g_s4) && __CPROVER_POINTER_OFFSET(str) == __CPROVER_POINTER_OFFSET(g_s4) + g_pos',
+                  'g_pos == g_n4 - len && g_count == g_c4 + g_pos',
+                  '(g_kseg == 3 && g_kj < g_pos) ? g_got == (int)g_s4[g_kj] : g_got == g_g4'],
    'decreases': 'len'},
   {'file': 'igris/util/printf_impl.c', 'func': 'print_i', 'at': 'before', 'anchor': 'while (space_count--)',
-   'ghost': 'g_c5 = g_count; g_n5 = space_count; g_g5 = g_got;'},
+   'ghost': 'g_l3 = g_pos; g_seg = 4; g_pos = 0; g_c5 = g_count; g_n5 = space_count; g_g5 = g_got;'},
   {'file': 'igris/util/printf_impl.c', 'func': 'print_i', 'loop': 5, 'expect': 'while (space_count--)',
-   'assigns': 'space_count, g_count, g_got',
+   'assigns': 'space_count, g_count, g_pos, g_got',
    'invariants': ['0 <= space_count && space_count <= g_n5',
-                  'g_count == g_c5 + (g_n5 - space_count)',
-                  'g_k < g_c5 ==> g_got == g_g5',
-                  '(g_c5 <= g_k && g_k < g_count) ==> g_got == 32'],
+                  'g_pos == g_n5 - space_count && g_count == g_c5 + g_pos',
+                  '(g_kseg == 4 && g_kj < g_pos) ? g_got == 32 : g_got == g_g5'],
    'decreases': 'space_count'},
  ],
  'kf': ['C06_neg_narrowing', 'C06_prec_minus_prefix', 'C06_prec0_val0', 'C06_hash_zero', 'C06_zero_flag_with_prec'],
@@ -51,23 +63,39 @@
                    'C06_prec0_val0': {'CONV': 'CONV_U'}, 'C06_hash_zero': {'CONV': 'CONV_X'},
                    'C06_zero_flag_with_prec': {'CONV': 'CONV_O'}},
  'assumptions': ['print_i call-site facts of __printf: width >= 0 (MAX(width, 0)); min_len >= 0; min_len == 0 when OPS_PREC_IS_GIVEN is clear (precision = atoi of a non-digit, or a negative `*` argument reset to 0); (base, is_signed) is (10,1) for d/i, (10,0) u, (8,0) o, (16,0) x/X; OPS_SPEC_UPPER_CASE only for X; %p: min_len = 2*sizeof(void*)+2, ops | WITH_SPEC | ZERO_PAD, base 16 (that __printf passes exactly these is proved by the fetch_* units)',
-                 'the ISO text has at most INT_MAX characters (the int return value cannot report more; C11 7.21.6.1p14/15)'],
+                 'the ISO text has at most INT_MAX characters (the int return value cannot report more)'],
+ 'trusted': ['segment-wise equality (same five lengths, same character at every (segment, offset)) implies equality of the two concatenated texts -- elementary, done outside the solver',
+             'digits of |v|: defined by the positional recurrence q0 = |v|, digit(i) = q(i) mod base, q(i+1) = q(i) div base, co-simulated in lock-step inside the digit loop (as units/C07 do); the NUMBER of digits is compared with the independent oracle (least n with |v| < base^n), and witness/replay runs compare against the closed form (|v| div base^i) mod base'],
  'witness': {'unwind': 24},
 } @*/
 #include "vc.h"
 #include "c06_env.h"
 #include "c06_iso_printf.h"
-/* ghost snapshots taken by the injected statements in front of the three padding loops */
-long long g_c1, g_n1, g_c3, g_n3, g_c4, g_n4, g_c5, g_n5;
-int g_g1, g_g3, g_g4, g_g5;
-const char *g_s4;
-#include "igris/util/printf_impl.c"
-
+/* ghost state written by the injected statements */
+long long g_c1, g_n1, g_c3, g_n3, g_c4, g_n4, g_c5, g_n5; /* count / iterations at the start of a contracted loop */
+int g_g1, g_g3, g_g4, g_g5;                               /* recorded character at that point */
+const char *g_s4;                                         /* start of the digit text inside buff */
+long long g_l0, g_l1, g_l2, g_l3;                         /* lengths of the segments already finished */
+unsigned long long g_q;                                   /* reference recurrence: current quotient */
+int g_nd;                                                 /* digits of |v| per the oracle (least n >= 1 with |v| < base^n) */
+unsigned long long g_pow[ISO_MAXDIG + 2];                 /* base^j, 0 when that exceeds 64 bits */
+/* "q has exactly n digits": base^(n-1) <= q < base^n (n == 1 also covers q == 0); pure expression for invariants */
+#define G_LEN_IS(q, n) ((n) >= 1 && (n) <= ISO_MAXDIG && ((n) == 1 || (q) >= g_pow[(n)-1]) && (g_pow[(n)] == 0 || (q) < g_pow[(n)]))
+int g_i, g_w;                                             /* iterations so far; weight (power of base) of the ghost digit */
+char g_refc;                                              /* reference digit character of weight g_w */
+struct iso_layout g_L;                                    /* the ISO layout, computed by the harness before the call */
+/* cut point after the counts are computed (asserted, then assumed: sound, and it lets the solver treat the
+ * arithmetic and the output loops separately).  The code counts the '0' that '#' puts in front of an octal
+ * number as a prefix; in the ISO layout it is the first of the leading zeros (same text). */
+#define G_LAYOUT_IS_ISO(pl, zc, ln, sc)                                                              \
+    ((CONV == CONV_O ? (g_L.plen == 0 && (pl) + (zc) == g_L.zeros) : ((pl) == g_L.plen && (zc) == g_L.zeros)) && \
+     (ln) == g_L.nbody && (sc) == g_L.lpad + g_L.rpad)
 #define CONV_D 0
 #define CONV_U 1
 #define CONV_O 2
 #define CONV_X 3
 #define CONV_P 4
+#include "igris/util/printf_impl.c"
 
 void harness(void)
 {
@@ -75,9 +103,9 @@ void harness(void)
     WIT(uint, ops_in);
     WIT(int, width);
     WIT(int, prec);
-    WIT(llong, k);
-    const uint flagbits = OPS_FLAG_LEFT_ALIGN | OPS_FLAG_WITH_SIGN | OPS_FLAG_EXTRA_SPACE | OPS_FLAG_WITH_SPEC | OPS_FLAG_ZERO_PAD;
-    /* the bits print_i looks at; the OPS_LEN_* bits are arbitrary (print_i must not depend on them) */
+    WIT(int, kseg);  /* ghost index: segment ... */
+    WIT(llong, kj);  /* ... and offset inside it; both arbitrary */
+    /* OPS_LEN_* bits stay arbitrary: print_i must not depend on them */
     uint ops = ops_in;
     int base = CONV == CONV_O ? 8 : (CONV == CONV_X || CONV == CONV_P) ? 16 : 10;
     int is_signed = CONV == CONV_D;
@@ -86,6 +114,7 @@ void harness(void)
     if (CONV != CONV_X)
         __CPROVER_assume(!(ops & OPS_SPEC_UPPER_CASE));
     int has_prec = (ops & OPS_PREC_IS_GIVEN) != 0;
+    int upper = (ops & OPS_SPEC_UPPER_CASE) != 0;
     struct iso_layout L;
     if (CONV == CONV_P) {
         /* the %p call of __printf */
@@ -95,14 +124,15 @@ void harness(void)
         L = iso_ptr_layout(C06_ISO_FLAGS(ops_in), width, v);
     } else {
         __CPROVER_assume(has_prec || prec == 0);
-        L = iso_int_layout(C06_ISO_FLAGS(ops), width, has_prec, prec, (unsigned)base, is_signed, (ops & OPS_SPEC_UPPER_CASE) != 0, v);
+        L = iso_int_layout(C06_ISO_FLAGS(ops), width, has_prec, prec, (unsigned)base, is_signed, upper, v);
     }
+    g_L = L;
     long long want = iso_layout_len(&L);
     __CPROVER_assume(want <= INT_MAX);
 
     /* known-finding regions, each a predicate over (conversion, ops, precision, value) */
     int nat = iso_ndigits(L.mag, (unsigned)base); /* significant digits of |v| (0 for v == 0) */
-    int code_len = nat ? nat : 1;                 /* digits the do-while produces */
+    int code_len = nat ? nat : 1;                 /* digits of |v| when 0 is written as "0" */
     int sign_or_0x = CONV == CONV_D ? ((llong)v < 0 || (ops & (OPS_FLAG_WITH_SIGN | OPS_FLAG_EXTRA_SPACE)))
                      : CONV == CONV_X ? (ops & OPS_FLAG_WITH_SPEC) != 0 : 0;
     int plen_code = CONV == CONV_D ? (sign_or_0x ? 1 : 0) : CONV == CONV_X ? (sign_or_0x ? 2 : 0)
@@ -121,15 +151,32 @@ void harness(void)
     KF_REGION(KF_C06_hash_zero, R_HASH_ZERO);
     KF_REGION(KF_C06_zero_flag_with_prec, R_ZERO_FLAG_WITH_PREC);
 
-    g_count = 0;
-    g_k = k;
-    g_got = -2;
+    /* ghost index: an arbitrary character of the ISO text */
+    __CPROVER_assume(kseg >= 0 && kseg <= 4 && kj >= 0 && kj < iso_layout_seg_len(&L, kseg));
+    g_count = 0; g_k = -1; g_seg = -1; g_pos = 0;
+    g_kseg = kseg; g_kj = kj; g_got = -2;
+    g_l0 = g_l1 = g_l2 = g_l3 = 0;
+    g_q = L.mag; g_i = 0; g_refc = 0; g_nd = code_len;
+    iso_pow_init(g_pow, (unsigned)base);
+    g_w = kseg == 3 ? (int)(L.nbody - 1 - kj) : -1; /* weight of the kj-th most significant of nbody digits */
 
     int ret = print_i(iso_recorder, 0, v, is_signed, width, min_len, ops, base);
+    long long l4 = g_seg == 4 ? g_pos : 0;
 
+    /* CUT(c): assert c, then continue under c (sound: nothing is assumed that was not just asserted); it spares the
+       solver re-deriving the segment equalities inside the sum below */
+#define CUT(c, msg) do { __CPROVER_assert(c, msg); __CPROVER_assume(c); } while (0)
+    CUT(g_l0 == L.lpad && l4 == L.rpad, "print_i: left / right space padding as ISO prescribes ('-' flag, width)");
+    CUT(g_l1 == L.plen, "print_i: sign / 0x prefix has the ISO length");
+    CUT(g_l2 == L.zeros && g_l3 == L.nbody, "print_i: number of leading zeros (precision, 0 flag, # with o) and of digits as ISO prescribes");
     __CPROVER_assert(ret == want, "print_i: return value == number of characters ISO C 7.21.6.1 prescribes for this directive and value");
     __CPROVER_assert(g_count == ret, "print_i: return value == number of characters handed to the callback");
-    __CPROVER_assert(!(k >= 0 && k < want && k < g_count) || g_got == iso_layout_char_at(&L, k),
-                     "print_i: k-th character handed to the callback == k-th character of the ISO text");
+    __CPROVER_assert(g_i == code_len, "print_i: as many digits produced as |v| has in this base (least n with |v| < base^n; one for 0)");
+#ifdef WITNESS_MODE
+    int expect = iso_layout_seg_char(&L, kseg, kj); /* closed-form oracle */
+#else
+    int expect = kseg == 3 ? g_refc : iso_layout_seg_char(&L, kseg, kj);
+#endif
+    __CPROVER_assert(g_got == expect, "print_i: j-th character of segment s handed to the callback == the ISO text's (arbitrary s, j)");
     CANARY("print_i harness end reachable");
 }
